@@ -2,14 +2,17 @@
 (* (V)/(R) for C19: validates recorded runs of the real CMAF-ingest receiver under concurrent uploads
    (driver harness/drive/c19) against the oracle ReceiverConcOps.  Events (one per line):
      note  {...}                                   information for the evidence file, no clause
-     hdr   {sc, kind, nch, ntr, auth, repcfg, ..}  new scenario: fresh receiver, empty storage
+     hdr   {sc, kind, nch, ntr, auth, repcfg, pre, ..}  new scenario: fresh receiver, storage empty but for the init_org
+                                                   files of the tracks listed in pre
      ref   {ch, order, indep, files, hasmpd, mpd, hastl, tl}
                                                    outcome for channel ch of the SAME uploads made one after the other
                                                    (each processed completely before the next) on a fresh receiver (real
                                                    code); indep: the oracle assumes these orders give the same outcome
      chan_created {ch}                             hook in newChannel: one per channel OBJECT
-     up    {ch, tr, seg, k, status, body, stored}  answer to an upload (seg = init | media, k = -1 | 0..2) and the
-                                                   driver's own look at <storage>/<ch>/<tr>/ (bytes equal)
+     up    {ch, tr, seg, k, status, body, stored, answered, cred}
+                                                   answer to an upload (seg = init | media, k = -1 | 0..) and the driver's
+                                                   own look at <storage>/<ch>/<tr>/; answered = FALSE: the handler did not
+                                                   return within the bound; cred = ok | wrong | none (credentials sent)
      process {ch, tr, k, n, complete, known}       hook in the channel goroutine after it handled a segment (k: outgoing
                                                    number, n: serial number of the event)
      final {ch, files, hasmpd, mpd, hastl, tl, objects, own, newest}
@@ -33,10 +36,12 @@ Note == /\ e.ev = "note"
         /\ UNCHANGED <<created, initOK, mediaOK, processed, refs>>
 
 Hdr == /\ e.ev = "hdr"
-       /\ created' = {} /\ initOK' = {} /\ mediaOK' = {} /\ processed' = {} /\ refs' = {}
+       \* tracks whose init segment is already on disk count as registered: their media uploads must be accepted
+       /\ created' = {} /\ initOK' = {<<e.pre[i][1], e.pre[i][2]>> : i \in DOMAIN e.pre}
+       /\ mediaOK' = {} /\ processed' = {} /\ refs' = {}
 
 Ref == /\ e.ev = "ref"
-       /\ LET o == Outcome(e.files, e.hasmpd, e.mpd, e.hastl, e.tl) IN
+       /\ LET o == Outcome(e.files, e.hasmpd, e.mpd, e.hastl, e.tl, e.st) IN
           \* the oracle's own assumption (a machinery problem when false, never a verdict): for these uploads
           \* the sequential outcome does not depend on the order, modulo the renaming defined by NormMPD
           /\ Clause("M.ref_order_independent", e.indep => RefsOf(e.ch) \subseteq {o}, <<e.ch, e.order>>)
@@ -49,7 +54,11 @@ ChanCreated == /\ e.ev = "chan_created"
                /\ UNCHANGED <<initOK, mediaOK, processed, refs>>
 
 Up == /\ e.ev = "up"
-      /\ IF e.seg = "init"
+      /\ Clause("C19.progress", ProgressOK(e.answered), <<e.seg, e.k>>)
+      /\ IF ~e.answered \/ e.cred # "ok"
+         THEN \* unanswered: C19.progress above; wrong / no credentials: judged by the statuses in C19.linearizable
+              initOK' = initOK /\ mediaOK' = mediaOK
+         ELSE IF e.seg = "init"
          THEN /\ Clause("C19.no_loss", InitNoLossOK(e.status, e.stored), <<"init", e.status, e.stored>>)
               /\ initOK' = IF e.status = 200 THEN initOK \cup {<<e.ch, e.tr>>} ELSE initOK
               /\ mediaOK' = mediaOK
@@ -66,10 +75,10 @@ Process == /\ e.ev = "process"
 MpdIds(m) == UNION {{m[i].reps[j].id : j \in DOMAIN m[i].reps} : i \in DOMAIN m}
 
 Final == /\ e.ev = "final"
-         /\ LET o == Outcome(e.files, e.hasmpd, e.mpd, e.hastl, e.tl) IN
+         /\ LET o == Outcome(e.files, e.hasmpd, e.mpd, e.hastl, e.tl, e.st) IN
             Clause("C19.linearizable", Linearizable(o, RefsOf(e.ch)),
                    [files_equal |-> FilesEqualSome(o, RefsOf(e.ch)), mpd_equal |-> MPDEqualSome(o, RefsOf(e.ch)),
-                    tl_equal |-> TLEqualSome(o, RefsOf(e.ch)), nas |-> o.nas, nreps |-> o.nrepsRaw])
+                    tl_equal |-> TLEqualSome(o, RefsOf(e.ch)), status_equal |-> StatusEqualSome(o, RefsOf(e.ch)), nas |-> o.nas, nreps |-> o.nrepsRaw])
          /\ Clause("C19.isolated",
                    Isolated(TRUE, e.hasmpd, MpdIds(e.mpd), TRUE, e.hastl, e.tl, Range(e.own), e.newest),
                    [hasmpd |-> e.hasmpd, hastl |-> e.hastl, tl |-> e.tl, newest |-> e.newest])
